@@ -42,11 +42,15 @@ theorem finding_cog4_temperature_negative (p : Cog4.P) (r t : ℝ) (hγ : 1 < p.
   have hu2 : 0 < p.u0 ^ 2 := by positivity
   have h0 : 0 < p.gamma := by linarith
   have hP := Real.rpow_pos_of_pos hr (2 * (-(p.geometry - 1) * (p.gamma - 1) / (p.gamma + 1)))
-  simp only [epv_tree, epv_leaf]
+  -- the generated leaf enters only through its documented closed form T = u₀²(1-γ)/(2γΓ) r^(2x₂)
+  have hT : Cog4.temperature p r t = p.u0 ^ 2 * (1 - p.gamma) / (2 * p.gamma * p.Gamma)
+      * r ^ (2 * (-(p.geometry - 1) * (p.gamma - 1) / (p.gamma + 1))) := by
+    simp only [epv_tree, epv_leaf] <;> epv_hydro_closed
   have : p.u0 ^ 2 * (1 - p.gamma) / (2 * p.gamma * p.Gamma) < 0 := by
     apply div_neg_of_neg_of_pos _ (by positivity)
     nlinarith
-  nlinarith
+  rw [hT]
+  exact mul_neg_of_neg_of_pos this hP
 
 /-- the defaults of Cog4 (γ = 1.4) are in the second case -/
 example : ∃ (p : Cog4.P) (r : ℝ), 1 < p.gamma ∧ p.u0 ≠ 0 ∧ 0 < p.Gamma ∧ 0 < r :=
@@ -80,9 +84,19 @@ theorem cog5_admissible_partial (p : Cog5.P) (r t : ℝ) (hρ : 0 < p.rho0) (hu 
 e = -2 u₀ r -/
 theorem finding_cog5_energy_negative (p : Cog5.P) (r t : ℝ) (hρ : 0 < p.rho0) (hu : 0 < p.u0) (hΓ : 0 < p.Gamma)
     (hr : 0 < r) : Cog5.specific_internal_energy p r t < 0 := by
-  simp only [epv_tree, epv_leaf]
-  have : p.Gamma * (p.rho0 * (r ^ 2)⁻¹ * 1) * (p.u0 * r / p.Gamma * 1) / (p.rho0 * (r ^ 2)⁻¹ * 1) / (-(1 / 2))
-      = -2 * (p.u0 * r) := by
+  -- e = p / ρ / (γ - 1) with γ = 1/2, p = Γ ρ T, T = u₀ r / Γ: the generated leaves enter only through these relations
+  have hd : 0 < Cog5.density p r t := (cog5_admissible_partial p r t hρ hu.le hΓ hr).1
+  have hT : Cog5.temperature p r t = p.u0 * r / p.Gamma := by
+    simp only [epv_tree, epv_leaf] <;> epv_hydro_closed
+  have hp : Cog5.pressure p r t = p.Gamma * Cog5.density p r t * Cog5.temperature p r t := by
+    simp only [epv_tree, epv_leaf] <;> ring
+  have he : Cog5.specific_internal_energy p r t = Cog5.pressure p r t / Cog5.density p r t / (-(1 / 2)) := by
+    clear hp hT
+    epv_hydro_via_atoms (Cog5.pressure p r t) (Cog5.density p r t)
+  have : Cog5.specific_internal_energy p r t = -2 * (p.u0 * r) := by
+    rw [he, hp, hT]
+    have hd' := hd.ne'
+    have hΓ' := hΓ.ne'
     field_simp
   rw [this]
   nlinarith [mul_pos hu hr]
